@@ -8,6 +8,7 @@
 (* the record of what it was given, and the loss of a fit on some data is   *)
 (* an arbitrary but fixed function LossOf.                                  *)
 (*   Fit(n, m, iz)       one fit; with iz the fit sees data + zero points   *)
+(*   Edit                the caller re-assigns a measured value in place    *)
 (*   BestFit(N, M, iz)   grid n <= N, m <= M; keeps the candidate whose     *)
 (*                       loss on the CALLER's data is strictly smallest     *)
 (* Leaky = TRUE is the named deviation D5: the zero points are appended to  *)
@@ -57,11 +58,19 @@ BestFit(N, M, iz) ==
      IN /\ data' = r[2]
         /\ log' = Append(log, [call |-> "best", n |-> N, m |-> M, iz |-> iz, before |-> data, result |-> r[1]])
   /\ hist' = Append(hist, [call |-> "best", n |-> N, m |-> M, iz |-> iz])
-Next == \E n \in 0..MaxOrder, m \in 0..MaxOrder, iz \in BOOLEAN : Fit(n, m, iz) \/ BestFit(n, m, iz)
+\* the environment: between two calls the CALLER may edit a measured value in place (same object, same length) - its right
+Edit ==
+  /\ Len(hist) < MaxCalls /\ Len(data) >= 1
+  /\ data' = [data EXCEPT ![1] = @ + 10]
+  /\ log' = log
+  /\ hist' = Append(hist, [call |-> "edit", n |-> 0, m |-> 0, iz |-> FALSE])
+Next == \/ \E n \in 0..MaxOrder, m \in 0..MaxOrder, iz \in BOOLEAN : Fit(n, m, iz) \/ BestFit(n, m, iz)
+        \/ Edit
 Spec == Init /\ [][Next]_vars
 
 (* ------------------------------ clauses of C16 ------------------------------ *)
-DataUnchanged == data = <<1, 2, 3>>
+\* a fitting call never modifies the measurements it is given (only the caller's own edits change them)
+DataUnchanged == [][(hist' # hist /\ hist'[Len(hist')].call # "edit") => data' = data]_vars
 \* equal calls on equal data give identical results
 Deterministic == \A i, j \in 1..Len(log) :
                    (log[i].call = log[j].call /\ log[i].n = log[j].n /\ log[i].m = log[j].m /\ log[i].iz = log[j].iz
